@@ -32,7 +32,7 @@ func verifAtoms() []string {
 func verifQuants() []string { return []string{"", "*", "+", "?", "{2}", "{1,2}", "{1,}", "*?", "+?", "??"} }
 
 func verifSubjects(maxLen int) []string {
-	alpha := []string{"a", "b", "A", "1", "_", "-", " ", "\n", "\r", "\t", "\v", "\f", "\x00", "\u00a0", "\u2028", "\ufeff", "\u00e9", "\U0001d4b3", ".", "/", "]", "$", ",", "+", "\u202f", "\u1680", "\u2003", "\u205f", "\u3000", "\u2029", "\u0085"}
+	alpha := []string{"a", "b", "A", "1", "_", "-", " ", "\n", "\r", "\t", "\v", "\f", "\x00", "\u00a0", "\u2028", "\ufeff", "\u00e9", "\U0001d4b3", ".", "/", "]", "$", ",", "+", "\u202f", "\u1680", "\u2003", "\u205f", "\u3000", "\u2029", "\u0085", "\U00020000", "\U0010ffff"}
 	out := []string{""}
 	level := []string{""}
 	for l := 1; l <= maxLen; l++ {
@@ -118,7 +118,7 @@ func TestVerifStandinConvert(t *testing.T) {
 			if skipLS && strings.ContainsAny(s, "\u2028\u2029") {
 				continue
 			}
-			if skipNonASCII && strings.ContainsAny(s, "\u00e9\U0001d4b3") {
+			if skipNonASCII && strings.ContainsAny(s, "\u00e9\U0001d4b3\U00020000\U0010ffff") {
 				continue
 			}
 			g := re.MatchString(s)
